@@ -33,7 +33,7 @@ pub trait Mac {
         requires old(self).mwf(), old(self).rr_pre(old(self).osz())
         ensures final(self).mwf(), final(self).done(), final(self).osz() == old(self).osz(),
                 r.code@ == old(self).cont(Seq::<u8>::empty()),
-                final(self).cont(Seq::<u8>::empty()) == old(self).cont(Seq::<u8>::empty()),
+                forall|n: nat| #[trigger] final(self).rr_pre(n) ==> final(self).cont(Seq::<u8>::empty()) == old(self).cont(Seq::<u8>::empty()),
                 forall|s: Seq<u8>| #[trigger] final(self).fresh(s) == old(self).fresh(s)
 //% end
 //% fn mac / Mac / raw_result
@@ -42,7 +42,7 @@ pub trait Mac {
         ensures final(self).mwf(), final(self).done(), final(self).osz() == old(self).osz(),
                 final(output).len() == old(output).len(),
                 final(output)@.subrange(0, old(self).osz() as int) == old(self).cont(Seq::<u8>::empty()),
-                final(self).cont(Seq::<u8>::empty()) == old(self).cont(Seq::<u8>::empty()),
+                forall|n: nat| #[trigger] final(self).rr_pre(n) ==> final(self).cont(Seq::<u8>::empty()) == old(self).cont(Seq::<u8>::empty()),
                 forall|s: Seq<u8>| #[trigger] final(self).fresh(s) == old(self).fresh(s)
 //% end
 //% fn mac / Mac / output_bytes
